@@ -190,6 +190,14 @@ func (c *Ctx) roundTrip(code []g.Instruction, start int, M uint64, legacy bool, 
 	}
 	t := &textCase{M: M, Legacy: legacy, Text: text, Code: hx.CoreStr(code), Start: start, Note: note}
 	c.check09(t)
+	if ps == nil && len(code) > 1 {
+		// "length 1..max": the same warrior under a configuration whose
+		// maximum length is exactly its length
+		t2 := *t
+		t2.MaxLen = uint64(len(code))
+		t2.Note = note + ", maximum length == length"
+		c.check09(&t2)
+	}
 }
 
 // RunC09 enumerates warriors, spellings and layout perturbations.
@@ -253,7 +261,7 @@ func (c *Ctx) RunC09(tier string) {
 			}
 		}
 	}
-	rep.Bound += "; all 2-instruction and all (quick: a third of the) 3-instruction warriors over a 12-form alphabet with every entry point"
+	rep.Bound += "; all 2-instruction and all (quick: a third of the) 3-instruction warriors over a 12-form alphabet with every entry point, each also under a maximum length equal to its length"
 
 	// (c) layout perturbations: every set of <= 2 (quick: <= 1, <= 2 on the first warrior)
 	nw := 0
